@@ -62,6 +62,19 @@ fn tier_params(tier: &str) -> Tier {
     }
 }
 
+/// Root of the verification tree this binary belongs to (<root>/sim/target/debug/sim),
+/// unless VERIF_ROOT says otherwise.
+pub fn verif_root() -> String {
+    if let Ok(r) = std::env::var("VERIF_ROOT") {
+        return r;
+    }
+    std::env::current_exe()
+        .ok()
+        .and_then(|e| e.ancestors().nth(4).map(|p| p.to_string_lossy().to_string()))
+        .filter(|p| std::path::Path::new(&format!("{p}/corpus")).is_dir())
+        .unwrap_or_else(|| "/verif".to_string())
+}
+
 fn arg_val(args: &[String], name: &str) -> Option<String> {
     args.iter()
         .position(|a| a == name)
@@ -398,7 +411,7 @@ fn spawn_workers(
 }
 
 fn load_known() -> (Vec<String>, Vec<String>) {
-    let path = std::env::var("VERIF_KNOWN").unwrap_or_else(|_| "/verif/known-findings.txt".into());
+    let path = std::env::var("VERIF_KNOWN").unwrap_or_else(|_| format!("{}/known-findings.txt", verif_root()));
     let mut known = Vec::new();
     let mut fixed = Vec::new();
     if let Ok(t) = std::fs::read_to_string(path) {
@@ -426,8 +439,9 @@ fn cmd_run(args: &[String]) -> i32 {
     let nw: u64 = arg_val(args, "--workers")
         .and_then(|s| s.parse().ok())
         .unwrap_or_else(|| std::thread::available_parallelism().map(|n| n.get() as u64).unwrap_or(8).min(16));
-    let evidence_path = arg_val(args, "--evidence").unwrap_or_else(|| "/verif/evidence/C11.json".into());
-    let replay_dir = arg_val(args, "--replays").unwrap_or_else(|| "/verif/replays".into());
+    let root = verif_root();
+    let evidence_path = arg_val(args, "--evidence").unwrap_or_else(|| format!("{root}/evidence/C11.json"));
+    let replay_dir = arg_val(args, "--replays").unwrap_or_else(|| format!("{root}/replays"));
     let tier = tier_params(&tier_name);
     println!("seed {seed} tier {tier_name} workers {nw}");
     let exe = std::env::current_exe().expect("current_exe");
@@ -438,7 +452,7 @@ fn cmd_run(args: &[String]) -> i32 {
             return 2;
         }
     };
-    let rundir = format!("/verif/sim/target/runs/{}", std::process::id());
+    let rundir = format!("{root}/sim/target/runs/{}", std::process::id());
     let _ = std::fs::create_dir_all(&rundir);
 
     // ---- phase H: harvest inputs that really panic on this tree
